@@ -272,6 +272,21 @@ def eval_case(case):
     except Exception as e:  # noqa
         res['err'] = 'build_error:' + type(e).__name__
         return res
+    if case.get('edits'):
+        # the same lens evaluated, edited through the public setters and evaluated again: every term must follow the
+        # *current* prescription and glasses (values kept on the long-lived optic.aberrations object)
+        from . import c01
+        try:
+            with np.errstate(all='ignore'):
+                optic.aberrations.third_order()
+                optic.aberrations.seidels()
+        except Exception:  # noqa
+            pass
+        for e in case['edits']:
+            if c01.apply_op(optic, tuple(e)) is not None:
+                res['err'] = 'edit_raised'
+                return res
+        res['counts'].append('edited-then-reevaluated')
     surfs = optic.surface_group.surfaces
     res['nsurf'] = len(surfs)
     res['has_mirror'] = any(s.is_reflective for s in surfs)
@@ -574,6 +589,20 @@ def cases(ctx):
         out.append({'desc': d, 'ops': ops,
                     'shift_stop_to': rng.randint(0, 30) if (kind < 0.45 and nopt >= 2) else None,
                     'real': rng.random() < 0.6})
+        if rng.random() < 0.3:
+            ns = len(d['surfaces'])
+            edits = []
+            for _ in range(rng.randint(1, 3)):
+                k = rng.randint(1, ns - 2)
+                u = rng.random()
+                nxt_mirror = any(d['surfaces'][q].get('material', {}).get('kind') == 'mirror' for q in (k, k + 1))
+                if u < 0.6 and k <= ns - 3 and not nxt_mirror:
+                    edits.append(['si', lensgen.dyadic(rng, 1.3, 2.0, 8), k])      # a glass becomes a constant index
+                elif u < 0.8:
+                    edits.append(['sr', lensgen.dyadic(rng, 15, 300, 3) * rng.choice([1, -1]), k])
+                else:
+                    edits.append(['st', lensgen.dyadic(rng, 0.5, 30, 4), k])
+            out.append({'desc': d, 'ops': ops, 'shift_stop_to': None, 'real': False, 'edits': edits})
     for i in range(12 if ctx.quick() else 400):
         rng = ctx.rng
         R = lensgen.dyadic(rng, 15, 300, 3) * rng.choice([1, -1])
